@@ -114,7 +114,9 @@ def run(prog, rep):
         if ok_one:
             ev, pv = evs[0], pvs[0]
             a = ev.args
-            rep.check(pv.args[0] == ("vec", (formula,)) and pv.args[1] == graph, "C18-O4", "unsafe_ex/parse", pv.where(),
+            # the validator takes the list of formulae (then `vec![formula]`) or one formula at a time (then the formula itself)
+            single = vplain is not None and "Vec<" not in str(vplain.param_tys[0]) and "[" not in str(vplain.param_tys[0])
+            rep.check(pv.args[0] == (formula if single else ("vec", (formula,))) and pv.args[1] == graph, "C18-O4", "unsafe_ex/parse", pv.where(),
                       "parse_and_validate(vec![formula], graph)", f"parse_and_validate called with {[sem.short(x, 60) for x in pv.args]}")
             tree = a[0]
             from_pv = any(x == pv.term for x in subterms(tree))
@@ -137,7 +139,12 @@ def run(prog, rep):
         ss = eng.summary(std)
         spn = std.param_names()
         pv2 = ss.sites_to(vname, deep=True)
-        rep.check(len(pv2) == 1 and pv2[0].args[0] == ("param", spn[0]) and pv2[0].args[1] == ("param", spn[1]), "C18-O4", "standard/parse",
+        import norm as _norm
+        single = vplain is not None and "Vec<" not in str(vplain.param_tys[0]) and "[" not in str(vplain.param_tys[0])
+        first = _norm.Normalizer()(pv2[0].args[0]) if len(pv2) == 1 else None
+        # (a validator that takes one formula is applied to every element of the list)
+        all_formulae = first == ("param", spn[0]) if not single else (first is not None and first[0] == "elem" and _norm.strip_adapters(first[1]) == ("param", spn[0]))
+        rep.check(len(pv2) == 1 and all_formulae and pv2[0].args[1] == ("param", spn[1]), "C18-O4", "standard/parse",
                   f"{std.file}:{std.line}", "standard pipeline validates with parse_and_validate(formulae, graph)",
                   "standard pipeline does not call parse_and_validate(formulae, graph)")
     # from_single_tree(t) == from_multiple_trees(vec![t])
